@@ -30,6 +30,8 @@ fn main() {
                         o.fuel = n.parse().unwrap();
                     } else if let Some(p) = f.strip_prefix("field=") {
                         o.field = Some(p.to_owned());
+                    } else if let Some(p) = f.strip_prefix("pending=") {
+                        o.pending_of = Some(p.to_owned());
                     } else if let Some(p) = f.strip_prefix("fmt=") {
                         use nickel_lang_core::serialize::ExportFormat;
                         o.text_format = match p {
